@@ -205,8 +205,97 @@ func ruleC10Linecol(p *Program, r *Run) {
 			ok, why = false, "no loop over the characters of the text before the position"
 		}
 		r.Check(ok, "C10/linecol", fn+" counts characters", p.Pos(fd.Pos()), "ranges over the runes of the text before the position", "line:column is not counted in characters: "+why+" - a position after non-ASCII text would be reported beyond the end of its line")
+		// the line number changes exactly at line feeds (path facts on the character of the iteration)
+		var lineVar types.Object
+		if rs := namedResults(fd); len(rs) >= 1 {
+			lineVar = info.Defs[rs[0]]
+		} else {
+			ast.Inspect(fd.Body, func(n ast.Node) bool {
+				if ret, isRet := n.(*ast.ReturnStmt); isRet && len(ret.Results) >= 1 && lineVar == nil {
+					lineVar = objOf(info, ret.Results[0])
+				}
+				return true
+			})
+		}
+		if lineVar != nil && ok {
+			lc := &linecolClient{fn: fn, line: lineVar}
+			le := NewEngine(p, pkg, fd, lc)
+			le.Run(nil)
+			for _, m := range le.Errs {
+				r.Fail("C10/linecol", fn+" engine", "-", m)
+			}
+			le.FlushSites(r)
+		}
 	}
 	r.Floor("C10/linecol", 2)
+}
+
+// linecolClient: inside the loop over the characters, the line counter is changed on a path iff the character of
+// this iteration is known to be a line feed.
+type linecolClient struct {
+	BaseClient
+	fn   string
+	line types.Object
+}
+
+func (c *linecolClient) charKey(e *Engine, loop ast.Stmt) string {
+	if rs, ok := loop.(*ast.RangeStmt); ok && rs.Value != nil {
+		if o := objOf(e.Info, rs.Value); o != nil {
+			return e.objKey(o)
+		}
+	}
+	return ""
+}
+
+func (c *linecolClient) LoopHead(e *Engine, st *State, loop ast.Stmt) *State {
+	if c.charKey(e, loop) == "" {
+		return nil
+	}
+	return st.WithExt("lineinc", "")
+}
+
+func (c *linecolClient) PostAssign(e *Engine, st *State, lhs, rhs []ast.Expr, stmt ast.Stmt) *State {
+	for _, l := range lhs {
+		if objOf(e.Info, l) != c.line {
+			continue
+		}
+		// inside the loop?
+		var loop ast.Stmt
+		for n := e.P.Parent(stmt); n != nil; n = e.P.Parent(n) {
+			if rs, ok := n.(*ast.RangeStmt); ok {
+				loop = rs
+				break
+			}
+		}
+		if loop == nil {
+			continue
+		}
+		if e.Reporting() {
+			ck := c.charKey(e, loop)
+			f := st.GetVar(ck)
+			ok := f != nil && f.HasEq && f.Eq == "10"
+			e.Site("C10/linecol", c.fn+" line counter changes only at a line feed", stmt, ok, "the character of the iteration is known to be '\\n' where the line number is changed")
+			if !ok {
+				e.Site("C10/linecol", c.fn+" line counter changes only at a line feed", stmt, false, "the line number is changed on a path where the character is not known to be a line feed: with CRLF (or any other character counted) every line break is counted more than once and positions point past the end of the source")
+			}
+		}
+		return st.WithExt("lineinc", "1")
+	}
+	return nil
+}
+
+func (c *linecolClient) LoopBack(e *Engine, st *State, loop ast.Stmt) {
+	ck := c.charKey(e, loop)
+	if ck == "" || !e.Reporting() {
+		return
+	}
+	if f := st.GetVar(ck); f != nil && f.HasEq && f.Eq == "10" {
+		ok := st.Ext("lineinc") == "1"
+		e.Site("C10/linecol", c.fn+" a line feed advances the line", loop, ok, "every iteration that saw '\\n' changed the line number")
+		if !ok {
+			e.Site("C10/linecol", c.fn+" a line feed advances the line", loop, false, "an iteration whose character is a line feed leaves the line number unchanged")
+		}
+	}
 }
 
 // ---- C12/errdup: an error value is merged into an accumulated error at most once per path.
@@ -767,4 +856,622 @@ func (p *Program) impliesNoSemicolon(info *types.Info, cond ast.Expr, v types.Ob
 		}
 	}
 	return false
+}
+
+// ---- C06/quoted-flag: an identifier node is marked Quoted exactly when its name does not come from a plain
+// identifier token.
+//
+// The compiler substitutes let bindings and parameters only for names whose Quoted flag is false; the flag is set
+// where the parser builds the node. Decided on the path facts at every Ident literal of the parser: the name is the
+// text of a token whose kind is known there; Quoted must be known true for anything but TokenIdentifier (a
+// backtick name, or any new way of spelling a name literally) and known false for TokenIdentifier (or a plain
+// name would never see its binding).
+type quotedFlagClient struct {
+	BaseClient
+	InlinePredicates
+	p      *Program
+	fn     string
+	ident  string
+	n      int
+	inline *types.Func
+}
+
+func (c *quotedFlagClient) Inline(e *Engine, call *ast.CallExpr, callee *types.Func, decl *ast.FuncDecl) bool {
+	if c.inline != nil && callee == c.inline {
+		return true
+	}
+	return c.InlinePredicates.Inline(e, call, callee, decl)
+}
+
+func (c *quotedFlagClient) Visit(e *Engine, st *State, n ast.Node) *State {
+	cl, ok := n.(*ast.CompositeLit)
+	if !ok || TypeStr(e.Info.TypeOf(cl)) != "parser.Ident" || !e.Reporting() {
+		return nil
+	}
+	c.n++
+	where := c.fn
+	if k := e.FrameKey(); k != "" {
+		where += " > " + k
+	}
+	key := fmt.Sprintf("%s Ident literal at %s", where, posInFunc(e, cl))
+	nv := litField(e.Info, cl, "Name")
+	if nv == nil {
+		return nil
+	}
+	if constOf(e.Info, nv) != nil {
+		return nil // a synthesised name
+	}
+	sel, isSel := ast.Unparen(e.ResolveExpr(nv)).(*ast.SelectorExpr)
+	if !isSel || sel.Sel.Name != "Value" || TypeStr(e.Info.TypeOf(sel.X)) != "parser.Token" {
+		e.Site("C06/quoted-flag", key, cl, false, "the name of an identifier node is not the text of a token ("+exprStr(nv)+"): whether it may be substituted by a let binding cannot be decided")
+		return nil
+	}
+	k := e.CanonSt(st, sel.X)
+	var f *Fact
+	if k.OK {
+		f = st.Get(k.Key + ".Kind")
+	}
+	plain, known := false, false
+	switch {
+	case f != nil && f.HasEq:
+		plain, known = f.Eq == c.ident, true
+	case f != nil && hasStr(f.Ne, c.ident):
+		plain, known = false, true
+	}
+	if !known {
+		e.Site("C06/quoted-flag", key, cl, false, "the kind of the token the name is taken from is not known where the identifier node is built")
+		return nil
+	}
+	q := litField(e.Info, cl, "Quoted")
+	var isQ, qKnown bool
+	switch {
+	case q == nil:
+		isQ, qKnown = false, true
+	case e.Known(st, q, true):
+		isQ, qKnown = true, true
+	case e.Known(st, q, false):
+		isQ, qKnown = false, true
+	}
+	okQ := qKnown && isQ == !plain
+	how := fmt.Sprintf("token is a plain identifier: %v, Quoted: %v", plain, isQ)
+	e.Site("C06/quoted-flag", key, cl, okQ, how)
+	if !okQ {
+		if plain {
+			e.Site("C06/quoted-flag", key, cl, false, "a plain identifier is marked Quoted (or the flag is not determined): let bindings and parameters would not be substituted for it")
+		} else {
+			e.Site("C06/quoted-flag", key, cl, false, "a name that does not come from a plain identifier token is not marked Quoted: a literally spelled name would be replaced by a let binding or parameter of the same name")
+		}
+	}
+	return nil
+}
+
+// posInFunc: ordinal of the composite literal among those of the same type in the function being interpreted.
+func posInFunc(e *Engine, cl *ast.CompositeLit) string {
+	n, idx := 0, 0
+	t := TypeStr(e.Info.TypeOf(cl))
+	ast.Inspect(e.CurFunc().Body, func(x ast.Node) bool {
+		if c, ok := x.(*ast.CompositeLit); ok && TypeStr(e.Info.TypeOf(c)) == t {
+			n++
+			if c == cl {
+				idx = n
+			}
+		}
+		return true
+	})
+	return fmt.Sprintf("#%d", idx)
+}
+
+func ruleC06Quoted(p *Program, r *Run) {
+	pkg := p.Parser
+	idc, ok := pkg.Types.Scope().Lookup("TokenIdentifier").(*types.Const)
+	if !ok {
+		fatalf("anchor not found: parser.TokenIdentifier")
+	}
+	for _, fd := range AllFuncs(pkg) {
+		has := false
+		ast.Inspect(fd.Body, func(n ast.Node) bool {
+			if cl, ok := n.(*ast.CompositeLit); ok && TypeStr(p.Info.TypeOf(cl)) == "parser.Ident" {
+				has = true
+			}
+			return !has
+		})
+		if !has {
+			continue
+		}
+		fn := FuncName(pkg, fd)
+		r.Saw(fn)
+		c := &quotedFlagClient{p: p, fn: fn, ident: constKey(idc.Val())}
+		e := NewEngine(p, pkg, fd, c)
+		e.Run(nil)
+		for _, m := range e.Errs {
+			r.Fail("C06/quoted-flag", fn+" engine", "-", m)
+		}
+		failed := false
+		for _, s := range e.Sites() {
+			if len(s.Fails) > 0 {
+				failed = true
+			}
+		}
+		if fobj := FuncObj(pkg, fd); failed && p.onlyCalledDirectly(fobj) && smallBody(fd) {
+			decided := 0
+			for _, caller := range AllFuncs(pkg) {
+				if caller == fd || !p.callsAny(caller, map[*types.Func]bool{fobj: true}) {
+					continue
+				}
+				c2 := &quotedFlagClient{p: p, fn: FuncName(pkg, caller), ident: constKey(idc.Val()), inline: fobj}
+				e2 := NewEngine(p, pkg, caller, c2)
+				e2.Run(nil)
+				for _, m := range e2.Errs {
+					r.Fail("C06/quoted-flag", c2.fn+" engine", "-", m)
+				}
+				decided += len(e2.Sites())
+				e2.FlushSites(r)
+			}
+			if decided > 0 {
+				continue
+			}
+		}
+		e.FlushSites(r)
+	}
+	r.Floor("C06/quoted-flag", 3)
+}
+
+// ---- C04/stale: text written into the SQL inside a loop is computed in the same iteration.
+//
+// A string variable that lives outside a loop, is given source-dependent values inside it and is handed to a call
+// inside the loop must have been assigned on every path of the current iteration; otherwise the value written for
+// one element is the value computed for an earlier one (a separator such as `sep = ", "` only ever receives
+// constants and is exempt).
+type staleClient struct {
+	BaseClient
+	fn     string
+	cands  map[ast.Stmt][]types.Object
+	nsites int
+}
+
+func (c *staleClient) candidates(e *Engine, loop ast.Stmt) []types.Object {
+	if v, ok := c.cands[loop]; ok {
+		return v
+	}
+	info := e.Info
+	var body *ast.BlockStmt
+	switch l := loop.(type) {
+	case *ast.ForStmt:
+		body = l.Body
+	case *ast.RangeStmt:
+		body = l.Body
+	}
+	seen := map[types.Object]bool{}
+	var out []types.Object
+	if body != nil {
+		ast.Inspect(body, func(n ast.Node) bool {
+			as, ok := n.(*ast.AssignStmt)
+			if !ok {
+				return true
+			}
+			for i, l := range as.Lhs {
+				o, isVar := objOf(info, l).(*types.Var)
+				if !isVar || seen[o] || o.Pos() >= loop.Pos() && o.Pos() < loop.End() {
+					continue
+				}
+				if b, isBasic := o.Type().Underlying().(*types.Basic); !isBasic || b.Info()&types.IsString == 0 {
+					continue
+				}
+				if len(as.Rhs) == len(as.Lhs) && constOf(info, as.Rhs[i]) != nil {
+					continue
+				}
+				seen[o] = true
+				out = append(out, o)
+			}
+			return true
+		})
+	}
+	if c.cands == nil {
+		c.cands = map[ast.Stmt][]types.Object{}
+	}
+	c.cands[loop] = out
+	return out
+}
+
+func (c *staleClient) LoopHead(e *Engine, st *State, loop ast.Stmt) *State {
+	out := st
+	for _, o := range c.candidates(e, loop) {
+		out = out.WithExt("stale:"+e.objKey(o), "1")
+	}
+	if out != st {
+		return out
+	}
+	return nil
+}
+
+func (c *staleClient) PostAssign(e *Engine, st *State, lhs, rhs []ast.Expr, _ ast.Stmt) *State {
+	out := st
+	for _, l := range lhs {
+		if o := objOf(e.Info, l); o != nil && out.Ext("stale:"+e.objKey(o)) != "" {
+			out = out.WithExt("stale:"+e.objKey(o), "")
+		}
+	}
+	if out != st {
+		return out
+	}
+	return nil
+}
+
+func (c *staleClient) PreCall(e *Engine, st *State, call *ast.CallExpr, callee *types.Func) *State {
+	if !e.Reporting() {
+		return nil
+	}
+	for _, a := range call.Args {
+		ast.Inspect(a, func(n ast.Node) bool {
+			id, ok := n.(*ast.Ident)
+			if !ok {
+				return true
+			}
+			o, isVar := objOf(e.Info, id).(*types.Var)
+			if !isVar {
+				return true
+			}
+			if _, tracked := st.ext["stale:"+e.objKey(o)]; !tracked {
+				// only variables that some loop of this function carries across iterations
+				found := false
+				for _, os := range c.cands {
+					for _, x := range os {
+						if x == o {
+							found = true
+						}
+					}
+				}
+				if !found {
+					return true
+				}
+			}
+			stale := st.Ext("stale:"+e.objKey(o)) == "1"
+			key := fmt.Sprintf("%s value of %s passed to %s", c.fn, o.Name(), exprStr(call.Fun))
+			c.nsites++
+			e.Site("C04/stale", key, call, !stale, "assigned on every path of the current iteration before it is used")
+			if stale {
+				e.Site("C04/stale", key, call, false, "the variable keeps its value from an earlier iteration on a path where this iteration assigns nothing to it: the text written for one element is the value computed for another")
+			}
+			return true
+		})
+	}
+	return nil
+}
+
+func ruleC04Stale(p *Program, r *Run) {
+	pkg := p.PQL
+	n := 0
+	for _, fd := range AllFuncs(pkg) {
+		loops := false
+		ast.Inspect(fd.Body, func(x ast.Node) bool {
+			switch x.(type) {
+			case *ast.ForStmt, *ast.RangeStmt:
+				loops = true
+			}
+			return !loops
+		})
+		if !loops {
+			continue
+		}
+		fn := FuncName(pkg, fd)
+		c := &staleClient{fn: fn}
+		e := NewEngine(p, pkg, fd, c)
+		e.Run(nil)
+		for _, m := range e.Errs {
+			r.Fail("C04/stale", fn+" engine", "-", m)
+		}
+		n++
+		if len(e.Sites()) == 0 {
+			r.PassNT("C04/stale", fn+" loops", p.Pos(fd.Pos()), "no string variable is carried across the iterations of a loop with source-dependent values")
+		}
+		e.FlushSites(r)
+	}
+	r.Floor("C04/stale", 4)
+}
+
+// ---- C08/errors-kept: an error a production has accumulated leaves the production with it.
+//
+// The parser reports what it could not represent by merging errors into a local accumulator (joinErrors) and
+// returning it. On every path from such a merge to a return, the accumulator (unless known nil) must be part of
+// what is returned - a `return x, nil` behind it accepts the source although tokens were skipped.
+type errKeptClient struct {
+	BaseClient
+	fn string
+}
+
+func (c *errKeptClient) PostAssign(e *Engine, st *State, lhs, rhs []ast.Expr, _ ast.Stmt) *State {
+	out := st
+	for i, l := range lhs {
+		id, ok := ast.Unparen(l).(*ast.Ident)
+		if !ok || id.Name == "_" {
+			continue
+		}
+		o := objOf(e.Info, id)
+		if o == nil || !isErrorType(o.Type()) {
+			continue
+		}
+		k := "acc:" + e.objKey(o)
+		merged := false
+		if len(rhs) == len(lhs) {
+			if call, isCall := ast.Unparen(rhs[i]).(*ast.CallExpr); isCall {
+				if f := Callee(e.Info, call); f != nil && fnName(f) == "joinErrors" {
+					merged = true
+				}
+			}
+		}
+		if merged {
+			out = out.WithExt(k, "1")
+		} else if out.Ext(k) != "" {
+			out = out.WithExt(k, "")
+		}
+	}
+	if out != st {
+		return out
+	}
+	return nil
+}
+
+func (c *errKeptClient) Return(e *Engine, st *State, ret *ast.ReturnStmt) {
+	if !e.Reporting() || e.Lit != nil || ret == nil || len(e.Frames()) > 0 {
+		return
+	}
+	for k, v := range st.ext {
+		if !strings.HasPrefix(k, "acc:") || v != "1" {
+			continue
+		}
+		key := strings.TrimPrefix(k, "acc:")
+		if f := st.Get(key); f != nil && f.Nil == 1 {
+			continue
+		}
+		name := key
+		if i := strings.Index(name, "#"); i > 0 {
+			name = name[:i]
+		}
+		mentioned := len(ret.Results) == 0 // bare return: named results
+		for _, x := range ret.Results {
+			ast.Inspect(x, func(n ast.Node) bool {
+				if id, ok := n.(*ast.Ident); ok {
+					if o := objOf(e.Info, id); o != nil && e.objKey(o) == key {
+						mentioned = true
+					}
+				}
+				return true
+			})
+		}
+		site := fmt.Sprintf("%s return #%d keeps %s", c.fn, returnOrdinal(e.Func, ret), name)
+		e.Site("C08/errors-kept", site, ret, mentioned, "the accumulated error is part of what is returned")
+		if !mentioned {
+			e.Site("C08/errors-kept", site, ret, false, fmt.Sprintf("errors were merged into %s on a path to this return, but the return does not carry it: the source is accepted although tokens were skipped or a construct was incomplete", name))
+		}
+	}
+}
+
+func ruleC08ErrorsKept(p *Program, r *Run) {
+	pkg := p.Parser
+	join := p.FuncDecl(pkg, "joinErrors")
+	if join == nil {
+		return
+	}
+	jf := FuncObj(pkg, join)
+	for _, fd := range AllFuncs(pkg) {
+		if fd == join || !p.callsAny(fd, map[*types.Func]bool{jf: true}) {
+			continue
+		}
+		fn := FuncName(pkg, fd)
+		r.Saw(fn)
+		c := &errKeptClient{fn: fn}
+		e := NewEngine(p, pkg, fd, c)
+		e.Run(nil)
+		for _, m := range e.Errs {
+			r.Fail("C08/errors-kept", fn+" engine", "-", m)
+		}
+		e.FlushSites(r)
+	}
+	r.Floor("C08/errors-kept", 20)
+}
+
+// ---- C10/source: positions are offsets into the caller's string.
+//
+// Scan and Parse hand out spans; their callers slice the very string they passed in. The text the scanner walks and
+// the source the parser records must therefore be the parameter itself, unmodified: the parameter is never assigned
+// again, the scanner's text field and the parser's source field are initialised with it, and every Scan call inside
+// Parse scans it. (A prefix that is to be ignored has to be skipped by position, not cut off.)
+func ruleC10Source(p *Program, r *Run) {
+	pkg := p.Parser
+	info := p.Info
+	check := func(name string, what func(fd *ast.FuncDecl, param types.Object) (bool, string)) {
+		fd := p.FuncDecl(pkg, name)
+		if fd == nil || fd.Recv != nil || len(fd.Type.Params.List) == 0 || len(fd.Type.Params.List[0].Names) == 0 {
+			return
+		}
+		fn := FuncName(pkg, fd)
+		r.Saw(fn)
+		param := info.Defs[fd.Type.Params.List[0].Names[0]]
+		ok, why := p.neverReassigned(param), "the source parameter is assigned again: positions would index a different string than the caller's"
+		if ok {
+			ok, why = what(fd, param)
+		}
+		r.Check(ok, "C10/source", fn+" works on the caller's string", p.Pos(fd.Pos()), "the parameter itself, never reassigned, is what is scanned and recorded", why)
+	}
+	isParam := func(x ast.Expr, param types.Object) bool {
+		return x != nil && objOf(info, p.Resolve(x)) == param
+	}
+	check("Scan", func(fd *ast.FuncDecl, param types.Object) (bool, string) {
+		n, ok, why := 0, true, ""
+		ast.Inspect(fd.Body, func(x ast.Node) bool {
+			cl, isLit := x.(*ast.CompositeLit)
+			if !isLit || TypeStr(info.TypeOf(cl)) != "parser.scanner" {
+				return true
+			}
+			n++
+			var text ast.Expr
+			for _, el := range cl.Elts {
+				if kv, isKV := el.(*ast.KeyValueExpr); isKV {
+					if t := info.TypeOf(kv.Value); t != nil {
+						if b, isB := t.Underlying().(*types.Basic); isB && b.Info()&types.IsString != 0 {
+							text = kv.Value
+						}
+					}
+				}
+			}
+			if !isParam(text, param) {
+				ok, why = false, "the scanner's text is "+exprStr(text)+", not the string that was passed in: every span would be an offset into a different string than the one the caller slices"
+			}
+			return true
+		})
+		if n == 0 {
+			return false, "no scanner is created over the source"
+		}
+		return ok, why
+	})
+	check("Parse", func(fd *ast.FuncDecl, param types.Object) (bool, string) {
+		n, ok, why := 0, true, ""
+		scan := FuncObj(pkg, p.MustFunc(pkg, "Scan"))
+		ast.Inspect(fd.Body, func(x ast.Node) bool {
+			switch v := x.(type) {
+			case *ast.CallExpr:
+				if Callee(info, v) == scan {
+					n++
+					if len(v.Args) != 1 || !isParam(v.Args[0], param) {
+						ok, why = false, "Parse scans "+exprStr(v.Args[0])+", not the string that was passed in"
+					}
+				}
+			case *ast.CompositeLit:
+				if TypeStr(info.TypeOf(v)) == "parser.parser" {
+					if s := litField(info, v, "source"); s != nil && !isParam(s, param) {
+						ok, why = false, "the parser records "+exprStr(s)+" as its source, not the string that was passed in: error positions and node spans would not fit the caller's text"
+					}
+				}
+			}
+			return true
+		})
+		if n == 0 {
+			return false, "Parse does not scan its source"
+		}
+		return ok, why
+	})
+	r.Floor("C10/source", 2)
+}
+
+// ---- C12/args-once: a writer hands each child of its node to the recursive writers at most once per path.
+//
+// Writing the same child twice makes the output (and the time) double with every nesting level of that construct:
+// a source of a few hundred bytes never finishes compiling. Decided on the path states of every function of the
+// compiler that writes SQL: the canonical path of every syntax-tree argument passed to a writing function is
+// remembered; passing the same path again on the same path through the function is reported.
+type argsOnceClient struct {
+	BaseClient
+	p    *Program
+	g    *grammar
+	fn   string
+	node *types.Interface
+}
+
+func (c *argsOnceClient) LoopHead(e *Engine, st *State, loop ast.Stmt) *State {
+	var vars []string
+	switch l := loop.(type) {
+	case *ast.RangeStmt:
+		for _, x := range []ast.Expr{l.Key, l.Value} {
+			if x != nil {
+				if o := objOf(e.Info, x); o != nil {
+					vars = append(vars, e.objKey(o))
+				}
+			}
+		}
+	case *ast.ForStmt:
+		if as, ok := l.Init.(*ast.AssignStmt); ok {
+			for _, x := range as.Lhs {
+				if o := objOf(e.Info, x); o != nil {
+					vars = append(vars, e.objKey(o))
+				}
+			}
+		}
+	}
+	out := st
+	for k := range st.ext {
+		if !strings.HasPrefix(k, "w:") {
+			continue
+		}
+		for _, v := range vars {
+			if strings.Contains(k, v) {
+				out = out.WithExt(k, "")
+			}
+		}
+	}
+	if out != st {
+		return out
+	}
+	return nil
+}
+
+func (c *argsOnceClient) PreCall(e *Engine, st *State, call *ast.CallExpr, callee *types.Func) *State {
+	if callee == nil || !c.g.emitFns[callee] {
+		return nil
+	}
+	out := st
+	for _, a := range call.Args {
+		t := e.Info.TypeOf(a)
+		if t == nil || !types.Implements(t, c.node) {
+			continue
+		}
+		k := e.CanonSt(out, a)
+		if !k.OK {
+			continue
+		}
+		if out.Ext("w:"+k.Key) == "1" {
+			if e.Reporting() {
+				e.Site("C12/args-once", fmt.Sprintf("%s writes %s once", c.fn, e.NormExpr(a)), call, false, "the same child of the node ("+exprStr(a)+") is handed to a writer a second time on one path: output and running time double with every nesting level of this construct")
+			}
+			continue
+		}
+		if e.Reporting() {
+			e.Site("C12/args-once", fmt.Sprintf("%s writes %s once", c.fn, e.NormExpr(a)), call, true, "first time on this path")
+		}
+		out = out.WithExt("w:"+k.Key, "1")
+	}
+	if out != st {
+		return out
+	}
+	return nil
+}
+
+func (c *argsOnceClient) PostAssign(e *Engine, st *State, lhs, rhs []ast.Expr, _ ast.Stmt) *State {
+	out := st
+	for _, l := range lhs {
+		o := objOf(e.Info, l)
+		if o == nil {
+			continue
+		}
+		key := e.objKey(o)
+		for k := range st.ext {
+			if strings.HasPrefix(k, "w:") && strings.Contains(k, key) {
+				out = out.WithExt(k, "")
+			}
+		}
+	}
+	if out != st {
+		return out
+	}
+	return nil
+}
+
+func ruleC12ArgsOnce(p *Program, r *Run) {
+	g := p.Grammar()
+	pkg := p.PQL
+	node := p.Iface(p.Parser, "Node")
+	for _, fd := range AllFuncs(pkg) {
+		fobj := FuncObj(pkg, fd)
+		if !g.emitFns[fobj] {
+			continue
+		}
+		fn := FuncName(pkg, fd)
+		c := &argsOnceClient{p: p, g: g, fn: fn, node: node}
+		e := NewEngine(p, pkg, fd, c)
+		e.Run(nil)
+		for _, m := range e.Errs {
+			r.Fail("C12/args-once", fn+" engine", "-", m)
+		}
+		e.FlushSites(r)
+	}
+	r.Floor("C12/args-once", 20)
 }
